@@ -29,14 +29,32 @@ def make_cases(chk):
         pool += [b2, m2, (gen.mat(rng, m, n), gen.vec(rng, m))]
         negzero = ([[(-0.0 if v == 0 else v) for v in r] for r in base[0]], [(-0.0 if v == 0 else v) for v in base[1]])
         pool.append(negzero)
+        # a copy that differs from the base by less than machine epsilon in one entry (still a different function)
+        tiny = ([list(r) for r in base[0]], list(base[1]))
+        if i % 2:
+            tiny[1][0] = tiny[1][0] + FR(3, 10**17) if tiny[1][0] == 0 else tiny[1][0] * (1 + FR(1, 2**52))
+        else:
+            tiny[0][0][0] = FR(1, 10**17) if tiny[0][0][0] == 0 else tiny[0][0][0] * (1 + FR(1, 2**52))
+        pool.append(tiny)
+        dec_gen = None
+        if i % 5 == 0:
+            # one-row terminals drawn from the same pool as the decision predicates: a terminal may equal its sibling
+            # decision's predicate (x0 vs relu(x0))
+            m = 1
+            shared = [(gen.nonzero_vec(rng, n), gen.coef(rng)) for _ in range(2)]
+            pool = [([list(a)], [b]) for a, b in shared] + [(gen.mat(rng, 1, n), gen.vec(rng, 1))]
+
+            def dec_gen(rng_, rows, n_, shared=shared):
+                a, b = rng_.choice(shared)
+                return ([list(a)], [b])
 
         def tg(rng_, m_, n_, pool=pool):
             return rng_.choice(pool)
         scr = rng.random() < 0.6
         if scr:
-            ts, _ = gen.tree_steps_scrambled("t", sh, n, m, rng, term_gen=tg, layout_f=0.3)
+            ts, _ = gen.tree_steps_scrambled("t", sh, n, m, rng, term_gen=tg, dec_gen=dec_gen, layout_f=0.3)
         else:
-            ts, _ = gen.tree_steps("t", sh, n, m, rng, term_gen=tg, order=rng.choice(["dfs", "bfs"]))
+            ts, _ = gen.tree_steps("t", sh, n, m, rng, term_gen=tg, dec_gen=dec_gen, order=rng.choice(["dfs", "bfs"]))
         steps = ts + [{"op": "export", "tree": "t"}, {"op": "reduce", "tree": "t"}, {"op": "export", "tree": "t"},
                       {"op": "reduce", "tree": "t"}, {"op": "export", "tree": "t"}]
         cases.append({"id": "r%d" % i, "steps": steps, "nt": len(ts),
